@@ -97,4 +97,84 @@ func ProbeDistance(seed uint64) string {
 	return ""
 }
 
-func copyV2(t types.V2Transaction) types.V2Transaction { return t.DeepCopy() }
+func copyV2(t types.V2Transaction) types.V2Transaction { return CopyV2(t) }
+
+// CopyV2 copies a v2 transaction through its encoding: no memory is shared with the original
+// (types.V2Transaction.DeepCopy leaves the renewal of a resolution shared).
+func CopyV2(t types.V2Transaction) types.V2Transaction {
+	var c types.V2Transaction
+	d := types.NewBufDecoder(EncV2(t))
+	c.DecodeFrom(d)
+	if d.Err() != nil {
+		panic(d.Err())
+	}
+	return c
+}
+
+// ProbeCapacity measures when the pool is full: transactions of about half a block each are
+// submitted one by one to a fresh manager until a reading shows that the pool shrank; the capacity
+// is the multiple of the block weight limit between the pool weights before and after that
+// submission. It returns a note for the evidence.
+func ProbeCapacity(seed uint64) (note string) {
+	defer func() {
+		if p := recover(); p != nil {
+			note = fmt.Sprint("capacity probe failed (", p, "): default of 10 blocks kept")
+		}
+	}()
+	cs := Case{Seed: seed*7907 + 3, Regime: 2, Opts: chaingen.GenOpts{Blocks: 3, Branchiness: 0, TxPerBlock: 1}}
+	t := cs.Tree()
+	w := NewWorld(t)
+	r := NewRunner(w, func(string, string) {})
+	r.Chain(mgrsim.Op{Kind: "add", Nodes: []int{1, 2, 3}})
+	tip := r.Tip
+	free := r.freeInputs(tip)
+	if len(free) == 0 {
+		return "capacity probe: no spendable element: default of 10 blocks kept"
+	}
+	mbw := tip.FullState.MaxBlockWeight()
+	size := int(mbw / 2)
+	basis := w.Info(tip).Index
+	weight := func() (n int, sum uint64) {
+		_, v2 := r.Pool()
+		for _, x := range v2 {
+			sum += tip.FullState.V2TransactionWeight(x)
+		}
+		return len(v2), sum
+	}
+	e := w.Env
+	// chains over the free inputs, extended round-robin by one transaction per submission
+	chains := make([][]types.V2Transaction, len(free))
+	ins := append([]types.SiacoinElement(nil), free...)
+	k := 0
+	for round := 0; round < 12; round++ {
+		for c := range chains {
+			if ins[c].SiacoinOutput.Value.Cmp(types.Siacoins(10)) < 0 {
+				continue
+			}
+			k++
+			n0, w0 := weight()
+			x := e.V2Spend(tip.FullState, ins[c], types.Siacoins(1), types.ZeroCurrency, e.Addr, size, byte(k))
+			chains[c] = append(chains[c], x)
+			ins[c] = x.EphemeralSiacoinOutput(0)
+			if _, err := r.CM.AddV2PoolTransactions(basis, chains[c]); err != nil {
+				return fmt.Sprintf("capacity probe: a valid chain was refused (%v): default of 10 blocks kept", err)
+			}
+			n1, _ := weight()
+			if n1 <= n0 {
+				w1 := w0 + tip.FullState.V2TransactionWeight(x)
+				blocks := w1 / mbw
+				if blocks*mbw <= w0 || blocks == 0 {
+					return fmt.Sprintf("capacity probe: the pool shrank between weights %d and %d, not at a multiple of the block weight: default of 10 blocks kept", w0, w1)
+				}
+				CapBlocks = blocks
+				return fmt.Sprintf("pool capacity measured: full at %d block weights (the pool shrank when its weight went from %d to %d)", blocks, w0, w1)
+			}
+			if w0 > 40*mbw {
+				CapBlocks = 1000
+				return "no eviction up to 40 block weights: the pool is treated as never full"
+			}
+		}
+	}
+	CapBlocks = 1000
+	return "capacity probe ran out of material without an eviction: the pool is treated as never full"
+}
